@@ -27,7 +27,7 @@ PROPS["C19"] = dict(
     design_ref="DESIGN.md section 7 (C19)",
     run_files=["Run/C19Run.v"],
     engines=[dict(cmd=["c19"], corr="Model.View.{merge,update} <-> cluster.mergeShardInfo, shardView.update")],
-    level_text="Theorems for all update multisets, orders, repetitions and groupings: the merged view is a function of the set of updates (under Raft consistency of the updates, shown necessary by a counterexample), retains max-cci membership and max-term leader, never replaces a leader by an older or leaderless update, term never regresses; merging a peer's merged view equals receiving its updates. Model compared with mergeShardInfo/shardView.update on random multisets; the Go side also re-applies permutations, duplicates and remote-view merges.",
+    level_text="Theorems for all update multisets, orders, repetitions and groupings: the merged view is a function of the set of updates (under Raft consistency of the updates, shown necessary by a counterexample), retains max-cci membership and max-term leader, never replaces a leader by an older or leaderless update, term never regresses; merging a peer's merged view equals receiving its updates. Model compared with mergeShardInfo/shardView.update on random multisets; the Go side also re-applies permutations, duplicates and remote-view merges; event sequences through a real cluster.Cluster (its Raft-event Notify, the memberlist join/leave/update callbacks and the push/pull delegate, with lagging peers) are checked after every event against the order-independent function of the updates seen and against the model.",
     level_note="Trusts: Coq kernel; genconst (noLeader); correspondence run; membership map abstracted to a label (the merge only copies it wholesale); Raft consistency of gossip updates is a hypothesis of the order-independence theorems.",
     technique="Coq proof (characterisation of fold merge as a set-determined maximum, induction over update lists) + differential correspondence check against mergeShardInfo/shardView.update",
     trusted=["Model/View.v hand-written model of storage/cluster/view.go; Replicas map abstracted to a label"],
@@ -39,7 +39,7 @@ PROPS["C13"] = dict(
     design_ref="DESIGN.md section 7 (C13)",
     run_files=["Run/C13Run.v"],
     engines=[dict(cmd=["c13"], corr="Model.MetaKV.{mupdate,mget,mgetall,mgetallvalues,mlist,mlistdir,msnapshot} <-> kv.LFSM.Update/Lookup/PrepareSnapshot/SaveSnapshot/RecoverFromSnapshot, kv.MapStore")],
-    level_text="Theorems for all entry sequences: CAS outcome (success iff absent or version equal; mismatch reports current pair and leaves the store unchanged), fresh increasing versions over logs with increasing indices, refinement of all lookups to the plain map built by successful updates, exact and sorted glob listings, batching independence, snapshot round trip. Model compared with the real kv.LFSM (incl. its JSON snapshot) on random scenarios; Go side checks the property oracle after every step and a second replica.",
+    level_text="Theorems for all entry sequences: CAS outcome (success iff absent or version equal; mismatch reports current pair and leaves the store unchanged), fresh increasing versions over logs with increasing indices, refinement of all lookups to the plain map built by successful updates, exact and sorted glob listings, batching independence, snapshot round trip. Model compared with the real kv.LFSM (incl. its JSON snapshot) on random scenarios; Go side checks the property oracle after every step (get/exists per key, the whole store, directory listings: no stored child dropped, nothing invented) and a second replica.",
     level_note="Trusts: Coq kernel; genconst (result codes); correspondence run; path.Match modelled for patterns of literals and '*' only and List/ListDir for clean absolute paths only (all that callers use); JSON snapshot modelled as identity on content (exercised by the harness).",
     technique="Coq proof (refinement of a sorted association list to an abstract CAS map, induction over entry lists) + differential correspondence check against kv.LFSM",
     trusted=["Model/MetaKV.v hand-written model of storage/kv/raft.go + map.go; strings modelled as UTF-8 byte lists"],
@@ -113,7 +113,7 @@ PROPS["C03"] = dict(
     design_ref="DESIGN.md section 7 (C03)",
     run_files=["Run/FsmRun.v"],
     engines=[dict(cmd=["c03"], corr="Model.Fsm.Update over partitions <-> fsm.FSM.Update/Open/Close/PrepareSnapshot/SaveSnapshot/RecoverFromSnapshot")],
-    level_text="Theorem for every log and every partition into non-empty apply batches: store (content and both bookkeeping values) and per-entry results are functions of the concatenated log; two partitions of one log give equal replicas. The same log is applied to two real FSMs under two random partitions with reopen and snapshot transfer (both formats and across) at cut points and compared entry by entry; both runs are also compared with the model.",
+    level_text="Theorem for every log and every partition into non-empty apply batches: store (content and both bookkeeping values) and per-entry results are functions of the concatenated log; two partitions of one log give equal replicas. The same log is applied to two real FSMs under two random partitions with reopen and snapshot transfer (both formats and across; the stream written at once or only after the saver applied the next batch, which the receiver then replays) at cut points and compared entry by entry; both runs are also compared with the model.",
     level_note="Trusts: Coq kernel; reopen and snapshot save/recover are the identity on the store in the model (the correspondence run is what checks the implementation does the same); Pebble-as-sorted-map.",
     technique="Coq proof (Update as a fold refining spec_entries, compositionality over list append) + differential correspondence check on two real FSM instances",
     trusted=_FSM_TRUSTED, label=fsm_label,
@@ -137,7 +137,7 @@ PROPS["C10"] = dict(
     design_ref="DESIGN.md section 7 (C10)",
     run_files=["Run/FsmRun.v"],
     engines=[dict(cmd=["c10"], corr="Model.Linear + Model.Fsm <-> table.ActiveTable.{Put,Delete,Txn,Range} over a simulated Raft host with real fsm.FSM replicas")],
-    level_text="Theorems: every API mutation (incl. a transaction with an empty executed branch) reports revision = its log index, revisions of a log are its indices in order, a replica with k >= a applied entries contains all a acknowledged writes, serializable reads answer from a prefix state; the read-path choice of the table layer is checked on the real table.ActiveTable with a simulated Raft host (three real FSM replicas, seed-chosen lag and batching), whose responses are also compared with the model and the specification.",
+    level_text="Theorems: every API mutation (incl. a transaction with an empty executed branch) reports revision = its log index, revisions of a log are its indices in order, a replica with k >= a applied entries contains all a acknowledged writes, serializable reads answer from a prefix state; the read-path choice of the table layer is checked on the real table.ActiveTable with a simulated Raft host (three real FSM replicas, seed-chosen lag and batching), whose responses are also compared with the model and the specification; a range read delivered in several messages with a transaction applied between two of them must be one state.",
     level_note="Trusts: Coq kernel; dragonboat's ReadIndex contract is an explicit assumption (embodied by the simulated host); concurrency between clients is represented by the commit order only (sequential client scripts); Pebble-as-sorted-map.",
     technique="Coq proof (prefix/append lemmas over spec_entries) + simulated-Raft-host differential check through table.ActiveTable",
     trusted=_FSM_TRUSTED + ["simulated Raft host in the harness (harness/c10.go) standing for dragonboat NodeHost"], label=fsm_label,
@@ -161,7 +161,7 @@ PROPS["C07"] = dict(
     design_ref="DESIGN.md section 7 (C07)",
     run_files=["Run/C07Run.v"],
     engines=[dict(cmd=["c07"], corr="Model.Restore.{read_into_table,restored,table_stream} + Model.Framing <-> table.Manager.Restore/readIntoTable, fsm.commandSnapshot, snapshot.snapshotFile/Writer/Reader", timeout=1200)],
-    level_text="Theorems for every in-memory-log-size setting, table content and chunking: the framed (and compressed, for any round-tripping compressor) command stream is read back with the same message boundaries; the proposed batches carry exactly the stream's pairs; the final message's index is the recorded leader index; loading into the fresh shard yields exactly the captured sorted content. Restores run through the real table.Manager on a single-node dragonboat NodeHost with thresholds on every record position, chunk sizes 1 B..1 MiB, a concurrent writer during capture and pre-existing content, compared with the model.",
+    level_text="Theorems for every in-memory-log-size setting, table content and chunking: the framed (and compressed, for any round-tripping compressor) command stream is read back with the same message boundaries; the proposed batches carry exactly the stream's pairs; the final message's index is the recorded leader index; loading into the fresh shard yields exactly the captured sorted content. Restores run through the real table.Manager on a single-node dragonboat NodeHost with thresholds on every record position, chunk sizes 1 B..1 MiB, a concurrent writer during capture, pre-existing content and (every third plan) an earlier restore of other content that broke off mid-stream, compared with the model.",
     level_note="Trusts: Coq kernel; snappy round trip is a hypothesis of the stream theorem (exercised, not proved); the restore target is a fresh shard (C14); Raft delivers the proposals in order; the backup manifest checksum gate is covered by C18's harness only.",
     technique="Coq proof (induction over the batching loop with accumulators, sorted-insertion lemma, frame parser with fuel) + differential correspondence check through table.Manager.Restore on an in-memory NodeHost",
     trusted=["Model/Restore.v, Model/Framing.v hand-written models of storage/table/manager.go readIntoTable/Restore and replication/snapshot"],
@@ -174,7 +174,7 @@ PROPS["C18"] = dict(
     run_files=["Run/C18Run.v", "Run/C07Run.v"],
     engines=[dict(cmd=["c18"], corr="Model.ProtoWire.{msg_enc,msg_dec,varint_enc,varint_dec} <-> regattaserver/encoding/proto Codec + regattapb *_vtproto.pb.go MarshalVT/UnmarshalVT"),
              dict(cmd=["c07", "--framing-only"], summary="c07", corr="Model.Framing <-> snapshot.snapshotFile/Writer/Reader", timeout=600)],
-    level_text="Theorems: varint and field-list encode/decode round trip for every well-formed field list (all wire types, nesting as byte fields, any sizes), decode into a recycled object equals decode into a fresh one, frames survive every chunking under any round-tripping compressor. The real registered codec is run on generated messages of the API/replication types (every oneof arm, absent vs empty, nil vs empty, 64-bit extremes) with bytes compared to the wire model's encoding of the reflected field tree, fresh and recycled receivers; gzip/snappy/zstd under 16 goroutines; snapshot files through Writer/Reader at chunk sizes 1 B..1 MiB.",
+    level_text="Theorems: varint and field-list encode/decode round trip for every well-formed field list (all wire types, nesting as byte fields, any sizes), decode into a recycled object equals decode into a fresh one, frames survive every chunking under any round-tripping compressor. The real registered codec is run on generated messages of the API/replication types (every oneof arm, absent vs empty, nil vs empty, 64-bit extremes) with bytes compared to the wire model's encoding of the reflected field tree, fresh and recycled receivers; the pooled Command as the code uses it (snapshot writer, then the replication worker's SEQUENCE); gzip/snappy/zstd under 16 goroutines (panics caught and reported); snapshot files through Writer/Reader at chunk sizes 1 B..1 MiB.",
     level_note="Trusts: Coq kernel; the schema layer (which Go field a number denotes, proto3 default omission, oneof) is reflected by the harness from the generated descriptors, not proved; compressor correctness and sync.Pool behaviour under the Go scheduler are exercised, not proved (PARTIAL).",
     technique="Coq proof (varint arithmetic, parser-with-fuel induction) + differential correspondence check of vtprotobuf bytes against the wire model, concurrency exercise of pooled compressors",
     trusted=["Model/ProtoWire.v hand-written model of the protobuf wire format", "Model/Framing.v"],
@@ -186,7 +186,7 @@ PROPS["C11"] = dict(
     design_ref="DESIGN.md section 7 (C11)",
     run_files=["Run/C11Run.v"],
     engines=[dict(cmd=["c11"], corr="Model.Queue.step + Model.Heap <-> storage.IndexNotificationQueue.Run, util/heap", timeout=900)],
-    level_text="Heap ORDER invariant proved (New establishes it, Push and Pop keep it, the root is a minimum), carried over the whole table map for every completed event sequence, hence promptness: after a handled notification of leader index r nobody in that table's queue waits for a revision <= r. Theorems over all event sequences (adds with any revisions and tables, cancellations, notifications, sweeps, caller reads, length queries): no handler ever blocks or panics, every waiter receives at most one answer, an OK answer is preceded by a notification at or beyond the waiter's revision, an error answer by its cancellation, and a sweep leaves no cancelled waiter behind. The real queue (real 1 s ticker) and util/heap are compared with the model on event scripts and operation sequences.",
+    level_text="Heap ORDER invariant proved (New establishes it, Push and Pop keep it, the root is a minimum), carried over the whole table map for every completed event sequence, hence promptness: after a handled notification of leader index r nobody in that table's queue waits for a revision <= r. Theorems over all event sequences (adds with any revisions and tables, cancellations, notifications, sweeps, caller reads, length queries), per handler AND composed over the whole table map (GInv: C11_loop_never_wedges - from the initial state every event sequence with fresh waiter ids is handled to the end): no handler ever blocks or panics, every waiter receives at most one answer, an OK answer is preceded by a notification at or beyond the waiter's revision, an error answer by its cancellation, and a sweep leaves no cancelled waiter behind. The real queue (real 1 s ticker) and util/heap are compared with the model on event scripts and operation sequences.",
     level_note="Trusts: Coq kernel; Go channel/select semantics abstracted to one event at a time (a send on a full capacity-1 channel blocks the loop); that the notified index implies the write is applied rests on C05.",
     technique="Coq proof (invariant over the event-loop state machine, permutation lemmas for the array heap) + differential correspondence check against the real queue under its real ticker",
     trusted=["Model/Queue.v, Model/Heap.v hand-written models of storage/queue.go and util/heap"],
@@ -236,8 +236,8 @@ PROPS["C15"] = dict(
     design_ref="DESIGN.md section 7 (C15)",
     run_files=["Run/C15Run.v"],
     engines=[dict(cmd=["c15"], corr="Model.Lease.lexec <-> table.Manager.LeaseTable/ReturnTable over kv.LFSM compare-and-set", timeout=900)],
-    level_text="Theorem for every interleaving (single metadata-store operations of any number of nodes, any lease durations incl. already expired ones, any passage of a global clock): at most one node holds a granted, unreturned, unexpired lease; the invariant is proved for each step; grant condition, one winner among racing requests, return removes only the caller's own lease. The real LeaseTable/ReturnTable run over the real kv.LFSM CAS semantics behind a scheduler that releases one store operation at a time: all interleavings of two calls enumerated plus random 2-3 node schedules, compared with the model and with a mutual-exclusion oracle.",
-    level_note="Trusts: Coq kernel; one global monotone clock (nodes' clocks are assumed synchronised, as the lease design itself assumes); correspondence run; RaftStore.Set/Delete result mapping re-implemented in the harness store (same code shape).",
+    level_text="Theorem for every interleaving (single metadata-store operations of any number of nodes, any lease durations incl. already expired ones, any passage of a global clock): at most one node holds a granted, unreturned, unexpired lease; the invariant is proved for each step; grant condition, one winner among racing requests, return removes only the caller's own lease. The real LeaseTable/ReturnTable run over the real kv.LFSM CAS semantics behind a scheduler that releases one store operation at a time: all interleavings of two calls enumerated plus random 2-3 node schedules, two waiting writes optionally applied by ONE LFSM.Update call (proposals committed together), compared with the model and with a mutual-exclusion oracle.",
+    level_note="Trusts: Coq kernel; one global monotone clock (nodes' clocks are assumed synchronised, as the lease design itself assumes); correspondence run; RaftStore.Set/Delete result mapping re-implemented in the harness store (same code shape); the replication worker's `leased` flag (whether a node ACTS on a lease after a failed renewal) is outside the statement and the model.",
     technique="Coq proof (inductive invariant over a small-step interleaving semantics with a ghost grant map) + scheduler-controlled differential check of table.Manager lease calls",
     trusted=["Model/Lease.v hand-written model of Manager.LeaseTable/ReturnTable and the LFSM version rule"],
     assumptions=["global monotone clock", "metadata store versions are log indices >= 1 (C13)"],
@@ -248,7 +248,7 @@ PROPS["C14"] = dict(
     design_ref="DESIGN.md section 7 (C14)",
     run_files=["Run/C14Run.v"],
     engines=[dict(cmd=["c14"], corr="Model.Catalogue.{cexec,to_start,to_stop} <-> table.Manager.createTable/incAndGetIDSeq/DeleteTable/GetTables, diffTables", timeout=900)],
-    level_text="Theorems for every interleaving of create/delete/list calls of any number of managers at single-store-operation granularity: ids of created tables are pairwise distinct and increasing (inductive invariant over the id sequence's compare-and-set), an existing name is refused, the three steps of a creation succeed when undisturbed, the second of two racing creations of one name fails, listing is exact, diffTables starts/stops exactly the right shards, per-id isolation of table data. Real managers run over the real kv.LFSM CAS semantics behind a scheduler (all interleavings of call pairs + random schedules), real diffTables on random inputs, and a real Manager on a NodeHost for emptiness of recreated tables, isolation and slash names.",
+    level_text="Theorems for every interleaving of create/delete/list calls of any number of managers at single-store-operation granularity: ids of created tables are pairwise distinct and increasing (inductive invariant over the id sequence's compare-and-set), an existing name is refused, the three steps of a creation succeed when undisturbed, the second of two racing creations of one name fails, listing is exact, diffTables starts/stops exactly the right shards, per-id isolation of table data. Real managers run over the real kv.LFSM CAS semantics behind a scheduler (all interleavings of call pairs + random schedules), real diffTables on random inputs (against the model and a set oracle), and a real Manager on a NodeHost for emptiness of recreated tables, isolation, slash and prefix names, and a restore after an interrupted restore (new id, stream content only).",
     level_note="Trusts: Coq kernel; genconst (tableIDsRangeStart); table names are path segments (names with '/' are rejected by the repaired code); emptiness of a new table rests on dragonboat giving a fresh shard id a fresh state machine directory (exercised on a real NodeHost, not proved); Restore's catalogue steps use the same id sequence (covered by the invariant) but are exercised only sequentially (C07).",
     technique="Coq proof (inductive invariant over an interleaving semantics of store programs, permutation reasoning on pending ids) + scheduler-controlled differential check of table.Manager",
     trusted=["Model/Catalogue.v hand-written model of the catalogue programs in storage/table/manager.go"],
@@ -260,7 +260,7 @@ PROPS["C16"] = dict(
     design_ref="DESIGN.md section 7 (C16)",
     run_files=["Run/C16Run.v"],
     engines=[dict(cmd=["c16"], corr="Model.Validate.{range_status,put_status,del_status,txn_status,create_status,delete_status} <-> regattaserver.KVServer/TablesServer/ReadonlyTablesServer + table.ActiveTable validators", timeout=900)],
-    level_text="Theorems over all requests (reduced to the features the validators inspect): every documented constraint yields its status class, an accepted request satisfies all of them, and the key/value limits hold on every path that can create a record including operations nested in transactions. The real KVServer + table.ActiveTable (over a simulated Raft host with real state machines) and the tables servers are run on an enumerated grid of field combinations and a malformed stream; status codes are compared with the model, the table content is read back after every rejection, panics are caught and reported.",
+    level_text="Theorems over all requests (reduced to the features the validators inspect): every documented constraint yields its status class, an accepted request satisfies all of them, and the key/value limits hold on every path that can create a record including operations nested in transactions. The real KVServer + table.ActiveTable (over a simulated Raft host with real state machines) and the tables servers are run on an enumerated grid of field combinations and a malformed stream; status codes are compared with the model, the table content is read back after every rejection, panics are caught and reported; requests with extreme numeric fields run in a child process whose death is reported with the request it announced last.",
     level_note="PARTIAL: 'no request terminates the process' is exercised (enumerated grid + random garbage, panics caught), not proved - a theorem about total Gallina validators says nothing about Go panics. Requests are called on the server objects directly, not through a network listener (gRPC decoding is C18's codec). storage.Engine's table routing is re-implemented in the harness (three lines per method).",
     technique="Coq proof (case analysis of the validator decision functions) + enumerated differential check of the real servers' status codes and effects",
     trusted=["Model/Validate.v hand-written model of the validators in regattaserver/kv.go, tables.go and storage/table/table.go"],
